@@ -125,10 +125,14 @@ class FakePoller(object):
 
 def strategy(tier):
     size = st.one_of(st.integers(0, 40), st.integers(0, 400), st.sampled_from([0, 1, 59, 60, 61, 63, 64, 65, 127, 128, 129, 1000, 5000]))
+    crafted = [b'', b'\xff', b'0.', b'.', b'cno_such_module\nX\n.', b'\x80\x02]q\x00(K\x01', b'\x80\x05\x95\xff\xff\xff\xff\xff\xff\xff\x7f', b'(I1\nI2\nt', b'S\'abc\np0\n.', b'\x80\x02c__builtin__\neval\nq\x00.', b'I99999999999999999999999\n.', b'\x8c\x03abc\x94\x93.']
     corruption = st.one_of(
         st.none(), st.none(),
         st.fixed_dictionaries({'frame': st.integers(0, 7), 'kind': st.sampled_from(['len-smaller', 'len-larger', 'len-zero', 'len-negative', 'len-huge', 'bitflip', 'truncate-eof', 'garbage']),
-                               'arg': st.integers(0, 1 << 16)}))
+                               'arg': st.integers(0, 1 << 16)}),
+        # a well-formed frame (valid length, valid zlib stream) whose content is not a decodable pickle, or raw bytes that are not zlib
+        st.fixed_dictionaries({'frame': st.integers(0, 7), 'kind': st.sampled_from(['payload-zlib-of', 'payload-zlib-of', 'payload-raw']),
+                               'arg': st.integers(0, 1 << 16), 'bytes': st.one_of(st.sampled_from(crafted), st.binary(max_size=24)).map(lambda b: list(b))}))
     return st.fixed_dictionaries({
         'sizes': st.lists(size, min_size=1, max_size=8),
         'recv_buf': st.sampled_from([1, 3, 16, 64, 8192]),
@@ -244,6 +248,16 @@ def run_case(case):
             del ab.buf[cut:]
             ab.eof = True
             ab.capacity = 0
+        elif kind in ('payload-zlib-of', 'payload-raw'):
+            import zlib
+            body = bytes(corrupt['bytes'])
+            body = zlib.compress(body, 3) if kind == 'payload-zlib-of' else body
+            ab.buf[off:off + (end - start)] = struct.pack('i', len(body)) + body
+            shift = len(body) + 4 - (end - start)
+            for i in range(len(bounds)):
+                if i > cframe:
+                    bounds[i] = (bounds[i][0] + shift, bounds[i][1] + shift)
+            ab.total += shift
         elif kind == 'garbage':
             g = bytes((arg + i * 13) % 256 for i in range(1 + arg % 9))
             ab.buf[off + (end - start):off + (end - start)] = g
